@@ -4,12 +4,21 @@
    - CSess: a websocket session with the real `adlt remote` (streams, queries, window changes, searches, lookups)
    - CBs  : slice::binary_search / partition_point of the toolchain against the modelled algorithm *)
 From Coq Require Import List NArith Bool.
-From AdltV Require Import Base.Obs Base.Res Base.MachInt Remote.Stream Remote.StreamFast Remote.StreamFilters.
+From AdltV Require Import Base.Obs Base.Res Base.MachInt Remote.Stream Remote.StreamFast Remote.StreamFilters Remote.StreamTimes.
 Import ListNotations.
 Open Scope N_scope.
 
-(* concrete messages: what the filters and lookups can see *)
-Record cmsg := { c_ecu : N; c_apid : N; c_ctid : N; c_time : N; c_index : N }.
+(* concrete messages: what the filters and lookups can see: ids, lifecycle id (ranked), timestamp (0.1 ms), reception
+   time (us), msg.index *)
+Record cmsg := { c_ecu : N; c_apid : N; c_ctid : N; c_lc : N; c_ts : N; c_rt : N; c_index : N }.
+
+(* the lifecycle table of a session as the lookup reads it: (id, start_time, start recorded for the resumed lifecycle) *)
+Definition clc := (N * N * option N)%type.
+Definition ctab (l : list clc) : list lc_entry :=
+  map (fun e : clc => let '(i, st, r) := e in {| lc_id := i; lc_start := st; lc_resume := r |}) l.
+(* the time of a message as binary_search_by_time_us computes it (Remote/StreamTimes.v): start_time of the table entry
+   under the message's lifecycle id + timestamp_us(), the reception time without entry *)
+Definition c_time (tab : list lc_entry) : cmsg -> N := msg_time c_lc (fun m => c_ts m * 100) c_rt tab.
 
 (* concrete filters as the commands carry them: (type, field, value, enabled);
    type as in the JSON: 0 positive, 1 negative, 2 marker, 3 event;
@@ -45,15 +54,16 @@ Inductive lcall :=
 | LEnd (e : N).                      (* msgs_to_send.end = e *)
 
 (* the log, run-length encoded: (count, ecu, apid) *)
-Fixpoint gen_run (cnt : nat) (e a c t dt i : N) : list cmsg :=
+Fixpoint gen_run (cnt : nat) (e a c lc ts dts rt drt i : N) : list cmsg :=
   match cnt with
   | O => []
-  | S k => {| c_ecu := e; c_apid := a; c_ctid := c; c_time := t; c_index := i |} :: gen_run k e a c (t + dt) dt (i + 1)
+  | S k => {| c_ecu := e; c_apid := a; c_ctid := c; c_lc := lc; c_ts := ts; c_rt := rt; c_index := i |}
+           :: gen_run k e a c lc (ts + dts) dts (rt + drt) drt (i + 1)
   end.
 Fixpoint expand_from (idx : N) (l : list (N * N * N)) : list cmsg :=
   match l with
   | [] => []
-  | (cnt, e, a) :: r => gen_run (N.to_nat cnt) e a 0 0 0 idx ++ expand_from (idx + cnt) r
+  | (cnt, e, a) :: r => gen_run (N.to_nat cnt) e a 0 0 0 0 0 0 idx ++ expand_from (idx + cnt) r
   end.
 Definition expand := expand_from 0.
 
@@ -99,12 +109,13 @@ Inductive sop :=
 | SLookTime (k t : N)
 | SBad (kind : N)                    (* a command the server rejects (the harness knows the text): err reply, nothing else *)
 | SLookIdxAll (k n : N)              (* index= for every index 0..n *)
-| SLookTimeAll (k t0 step cnt : N). (* time lookups at t0 + j*step (us), j < cnt *)
+| SLookTimeAll (k t0 step cnt : N)  (* time lookups at t0 + j*step (us), j < cnt *)
+| SLookTimes (k : N) (ts : list N). (* time lookups at the listed times (us) *)
 
 (* [fast_run] = [run] on every reachable state (Remote/StreamFastProofs.v, pinned as C16_fast_run_is_run); it makes
    sessions with windows of some 100 000 messages evaluable *)
-Definition c_run (sorted : bool) := @fast_run cmsg part_chunk c_time c_index sorted.
-Definition c_step (sorted : bool) := @step cmsg part_chunk c_time c_index sorted.
+Definition c_run (tab : list lc_entry) (sorted : bool) := @fast_run cmsg part_chunk (c_time tab) c_index sorted.
+Definition c_step (tab : list lc_entry) (sorted : bool) := @step cmsg part_chunk (c_time tab) c_index sorted.
 
 (* what was delivered_obs under [id] in a list of events: message indices, text positions, number of end markers *)
 Fixpoint delivered_obs (id : N) (evs : list (event cmsg)) : list N * list N * N :=
@@ -178,8 +189,8 @@ Fixpoint set_nth_id (ids : list N) (k : nat) (id : N) : list N :=
   end.
 
 (* apply model ops, appending to the trace; None on a model panic *)
-Definition apply (sorted : bool) (st : sess) (ops : list (op cmsg)) : option (sess * list (event cmsg)) :=
-  match c_run sorted (ss_sv st) ops with
+Definition apply (tab : list lc_entry) (sorted : bool) (st : sess) (ops : list (op cmsg)) : option (sess * list (event cmsg)) :=
+  match c_run tab sorted (ss_sv st) ops with
   | Ok (sv', evs) => Some ({| ss_sv := sv'; ss_loaded := ss_loaded st; ss_ids := ss_ids st;
                              ss_trace := ss_trace st ++ evs; ss_created := ss_created st |}, evs)
   | _ => None
@@ -194,22 +205,22 @@ Definition with_loaded (st : sess) : sess :=
 Definition with_ids (st : sess) (ids : list N) (created : list (N * bool)) : sess :=
   {| ss_sv := ss_sv st; ss_loaded := ss_loaded st; ss_ids := ids; ss_trace := ss_trace st; ss_created := created |}.
 
-Definition do_settle (sorted : bool) (file : list cmsg) (st : sess) : option sess :=
-  match apply sorted st (settle_ops file (ss_loaded st)) with
+Definition do_settle (tab : list lc_entry) (sorted : bool) (file : list cmsg) (st : sess) : option sess :=
+  match apply tab sorted st (settle_ops file (ss_loaded st)) with
   | Some (st', _) => Some (with_loaded st')
   | None => None
   end.
 
 Definition o_next (n : option N) : otree := match n with Some i => T [L i] | None => T [] end.
 
-Fixpoint pages_obs (fuel : nat) (sorted : bool) (st : sess) (id start maxr : N) (fs : list cfilt) : list otree :=
+Fixpoint pages_obs (fuel : nat) (tab : list lc_entry) (sorted : bool) (st : sess) (id start maxr : N) (fs : list cfilt) : list otree :=
   match fuel with
   | O => [T [L 98]]
   | S f =>
-    match c_step sorted (ss_sv st) (OSearch id start maxr (cfset fs)) with
+    match c_step tab sorted (ss_sv st) (OSearch id start maxr (cfset fs)) with
     | Ok (_, [EReplySearch _ idxs next]) =>
         T [L 0; T (map L idxs); o_next next] ::
-        match next with Some n => pages_obs f sorted st id n maxr fs | None => [] end
+        match next with Some n => pages_obs f tab sorted st id n maxr fs | None => [] end
     | Ok (_, _) => [T [L 1]]
     | _ => [o_panic]
     end
@@ -218,25 +229,25 @@ Fixpoint pages_obs (fuel : nat) (sorted : bool) (st : sess) (id start maxr : N) 
 (* searches, lookups and stops are asked in settled states only (a raced query may or may not have ended yet) *)
 Definition needs_settled (o : sop) : bool :=
   match o with SSearch _ _ _ _ | SPages _ _ _ _ | SLookIdx _ _ | SLookTime _ _ | SStop _ | SLookIdxAll _ _
-               | SLookTimeAll _ _ _ _ => true | _ => false end.
+               | SLookTimeAll _ _ _ _ | SLookTimes _ _ => true | _ => false end.
 
-Definition look_obs (sorted : bool) (st : sess) (o : op cmsg) : otree :=
-  match c_step sorted (ss_sv st) o with
+Definition look_obs (tab : list lc_entry) (sorted : bool) (st : sess) (o : op cmsg) : otree :=
+  match c_step tab sorted (ss_sv st) o with
   | Ok (_, [EReplyLookup _ (Some p)]) => T [L 0; L p]
   | Ok (_, _) => T [L 1]
   | _ => o_panic
   end.
 
-Definition sess_step (sorted : bool) (file : list cmsg) (st0 : sess) (o : sop) : sess * otree :=
+Definition sess_step (tab : list lc_entry) (sorted : bool) (file : list cmsg) (st0 : sess) (o : sop) : sess * otree :=
   let st := if needs_settled o && negb (ss_loaded st0)
-            then match do_settle sorted file st0 with Some s => s | None => st0 end else st0 in
+            then match do_settle tab sorted file st0 with Some s => s | None => st0 end else st0 in
   match o with
   | SNew settle is_stream binary fs start end_ =>
-      match apply sorted st [ONew is_stream binary (cfset fs) start end_] with
+      match apply tab sorted st [ONew is_stream binary (cfset fs) start end_] with
       | Some (st1, [EReplyNew id]) =>
           let st2 := with_ids st1 (ss_ids st1 ++ [id]) (ss_created st1 ++ [(id, settle)]) in
           if settle then
-            match do_settle sorted file st2 with
+            match do_settle tab sorted file st2 with
             | Some st3 => (st3, T [L 0; o_delivered true is_stream id (ss_trace st3)])
             | None => (st2, o_panic)
             end
@@ -244,11 +255,11 @@ Definition sess_step (sorted : bool) (file : list cmsg) (st0 : sess) (o : sop) :
       | _ => (st, o_panic)
       end
   | SWindow settle k start end_ =>
-      match apply sorted st [OWindow (nth_id (ss_ids st) k) start end_] with
+      match apply tab sorted st [OWindow (nth_id (ss_ids st) k) start end_] with
       | Some (st1, [EReplyWindow _ nid _ _]) =>
           let st2 := with_ids st1 (set_nth_id (ss_ids st1) (N.to_nat k) nid) (ss_created st1 ++ [(nid, settle)]) in
           if settle then
-            match do_settle sorted file st2 with
+            match do_settle tab sorted file st2 with
             | Some st3 => (st3, T [L 0; o_delivered false true nid (ss_trace st3)])
             | None => (st2, o_panic)
             end
@@ -257,49 +268,51 @@ Definition sess_step (sorted : bool) (file : list cmsg) (st0 : sess) (o : sop) :
       | None => (st, o_panic)
       end
   | SStop k =>
-      match apply sorted st [OStop (nth_id (ss_ids st) k)] with
+      match apply tab sorted st [OStop (nth_id (ss_ids st) k)] with
       | Some (st1, [EReplyStop _]) => (st1, T [L 0])
       | Some (st1, _) => (st1, T [L 1])
       | None => (st, o_panic)
       end
   | SSearch k start maxr fs =>
-      match apply sorted st [OSearch (nth_id (ss_ids st) k) start maxr (cfset fs)] with
+      match apply tab sorted st [OSearch (nth_id (ss_ids st) k) start maxr (cfset fs)] with
       | Some (st1, [EReplySearch _ idxs next]) => (st1, T [L 0; T (map L idxs); o_next next])
       | Some (st1, _) => (st1, T [L 1])
       | None => (st, o_panic)
       end
   | SPages k start maxr fs =>
-      (st, T (pages_obs (S (length file)) sorted st (nth_id (ss_ids st) k) start maxr fs))
+      (st, T (pages_obs (S (length file)) tab sorted st (nth_id (ss_ids st) k) start maxr fs))
   | SLookIdx k idx =>
-      match apply sorted st [OLookupIdx (nth_id (ss_ids st) k) idx] with
+      match apply tab sorted st [OLookupIdx (nth_id (ss_ids st) k) idx] with
       | Some (st1, [EReplyLookup _ (Some p)]) => (st1, T [L 0; L p])
       | Some (st1, _) => (st1, T [L 1])
       | None => (st, o_panic)
       end
   | SBad _ =>
-      match apply sorted st [OReject] with
+      match apply tab sorted st [OReject] with
       | Some (st1, [EErr]) => (st1, T [L 1])
       | Some (st1, _) => (st1, T [L 0])
       | None => (st, o_panic)
       end
   | SLookIdxAll k n =>
-      (st, T (map (fun i => look_obs sorted st (OLookupIdx (nth_id (ss_ids st) k) i)) (positions 0 (N.to_nat (n + 1)))))
+      (st, T (map (fun i => look_obs tab sorted st (OLookupIdx (nth_id (ss_ids st) k) i)) (positions 0 (N.to_nat (n + 1)))))
   | SLookTimeAll k t0 step cnt =>
-      (st, T (map (fun j => look_obs sorted st (OLookupTime (nth_id (ss_ids st) k) (t0 + j * step))) (positions 0 (N.to_nat cnt))))
+      (st, T (map (fun j => look_obs tab sorted st (OLookupTime (nth_id (ss_ids st) k) (t0 + j * step))) (positions 0 (N.to_nat cnt))))
+  | SLookTimes k ts =>
+      (st, T (map (fun t => look_obs tab sorted st (OLookupTime (nth_id (ss_ids st) k) t)) ts))
   | SLookTime k t =>
-      match apply sorted st [OLookupTime (nth_id (ss_ids st) k) t] with
+      match apply tab sorted st [OLookupTime (nth_id (ss_ids st) k) t] with
       | Some (st1, [EReplyLookup _ (Some p)]) => (st1, T [L 0; L p])
       | Some (st1, _) => (st1, T [L 1])
       | None => (st, o_panic)
       end
   end.
 
-Fixpoint sess_run (sorted : bool) (file : list cmsg) (st : sess) (ops : list sop) : sess * list otree :=
+Fixpoint sess_run (tab : list lc_entry) (sorted : bool) (file : list cmsg) (st : sess) (ops : list sop) : sess * list otree :=
   match ops with
   | [] => (st, [])
   | o :: r =>
-    let '(st1, ob) := sess_step sorted file st o in
-    let '(st2, obs) := sess_run sorted file st1 r in
+    let '(st1, ob) := sess_step tab sorted file st o in
+    let '(st2, obs) := sess_run tab sorted file st1 r in
     (st2, ob :: obs)
   end.
 
@@ -309,12 +322,12 @@ Definition o_totals (st : sess) : otree :=
             if snd c then let '(ix, _, d) := delivered_obs (fst c) (ss_trace st) in T [L (len ix); L d] else T [])
          (ss_created st)).
 
-Definition run_sess (sorted preload : bool) (file : list cmsg) (ops : list sop) : otree :=
+Definition run_sess (tab : list lc_entry) (sorted preload : bool) (file : list cmsg) (ops : list sop) : otree :=
   let st0 := {| ss_sv := server0 1; ss_loaded := false; ss_ids := []; ss_trace := []; ss_created := [] |} in
-  let st1 := if preload then match do_settle sorted file st0 with Some s => s | None => st0 end else st0 in
-  let '(st2, obs) := sess_run sorted file st1 ops in
+  let st1 := if preload then match do_settle tab sorted file st0 with Some s => s | None => st0 end else st0 in
+  let '(st2, obs) := sess_run tab sorted file st1 ops in
   (* final settle: everything that is still due arrives *)
-  match do_settle sorted file st2 with
+  match do_settle tab sorted file st2 with
   | Some st3 => T [T obs; o_totals st3]
   | None => o_panic
   end.
@@ -323,25 +336,26 @@ Definition run_sess (sorted preload : bool) (file : list cmsg) (ops : list sop) 
 Definition o_bres (r : bres) : otree := match r with BOk i => T [L 0; L i] | BErr i => T [L 1; L i] end.
 
 (* ------------------------------------------------------------------ cases *)
-(* the file of a session in all_msgs order, run-length encoded: (count, ecu, apid, ctid, t0, dt, idx0);
-   time and index advance linearly inside a run *)
-Definition frun := (N * N * N * N * N * N * N)%type.
+(* the file of a session in all_msgs order, run-length encoded:
+   (count, ecu, apid, ctid, lifecycle, ts0, dts, rt0, drt, idx0); timestamp, reception time and index advance linearly
+   inside a run *)
+Definition frun := (N * N * N * N * N * N * N * N * N * N)%type.
 Fixpoint expand_file (l : list frun) : list cmsg :=
   match l with
   | [] => []
-  | (cnt, e, a, c, t0, dt, i0) :: r => gen_run (N.to_nat cnt) e a c t0 dt i0 ++ expand_file r
+  | (cnt, e, a, c, lc, ts0, dts, rt0, drt, i0) :: r => gen_run (N.to_nat cnt) e a c lc ts0 dts rt0 drt i0 ++ expand_file r
   end.
 
 Inductive case_C16 :=
 | CLib (is_stream : bool) (fs : list cfilt) (start end_ : N) (log : list (N * N * N)) (calls : list lcall)
-| CSess (sorted preload : bool) (file : list frun) (ops : list sop)
+| CSess (sorted preload : bool) (lcs : list clc) (file : list frun) (ops : list sop)
 | CBs (l : list N) (key : N).
 
 Definition run_C16 (c : case_C16) : otree :=
   match c with
   | CLib is_stream fs start end_ log calls =>
       T (run_lib (expand log) 0 (new_ctx 0 is_stream true (cfset fs) start end_) calls)
-  | CSess sorted preload file ops => run_sess sorted preload (expand_file file) ops
+  | CSess sorted preload lcs file ops => run_sess (ctab lcs) sorted preload (expand_file file) ops
   | CBs l key =>
       T [o_bres (std_bsearch (fun x => N.compare x key) l); L (partition_point (fun x => x <? key) l)]
   end.
